@@ -16,7 +16,8 @@ RULE = (
     "a case = protocol version 4..14 x current NCP value per setting {below, equal to, above the default, unreadable} x "
     "override set drawn from that version's schema keys (in-range values, None = disabled; keys inside and outside the "
     "default list) x per-setting accept/reject status (defined and undefined codes). Each case also runs once with every "
-    "setting accepted (metamorphic twin). Non-trivial = at least one override or one rejection or one current value above "
+    "setting accepted (metamorphic twin); a third of the cases are preceded by an earlier, unjudged write_config call on the "
+    "same EZSP object whose overrides raise some NCP values. Non-trivial = at least one override or one rejection or one current value above "
     "the default; distinct by plan."
 )
 ASSUMPTIONS = [
@@ -68,17 +69,27 @@ class ConfigSim(simncp.SimNcp):
         return {"status": "OK"}
 
 
-def run_once(v, current, overrides, reject):
+def run_once(v, current, overrides, reject, first=None):
     import bellows.ezsp as e
 
     out = {}
 
     async def body(loop):
-        sim = ConfigSim(loop, v, current, reject)
+        sim = ConfigSim(loop, v, current, {} if first is not None else reject)
         ezsp = e.EZSP({"path": "/dev/null"})
         sim.attach(ezsp)
         ezsp._switch_protocol_version(v)
         ezsp.start_ezsp()
+        if first is not None:
+            # an earlier configuration write on the same EZSP object (bring-up writes the configuration more than once);
+            # it is not judged, it only leaves the NCP - and the host object - in whatever state it leaves them
+            try:
+                await asyncio.wait_for(ezsp.write_config(dict(first)), 2000)
+            except Exception as ex:
+                out["first_exc"] = ex
+            sim.sets = []
+            sim.reject = dict(reject)
+        out["current_before"] = dict(sim.current)
         try:
             await asyncio.wait_for(ezsp.write_config(dict(overrides)), 2000)
             out["exc"] = None
@@ -114,7 +125,8 @@ def check(plan) -> Result:
     v = plan["v"]
     current, overrides, reject = plan["current"], plan["overrides"], plan["reject"]
     r = Result()
-    out = run_once(v, current, overrides, reject)
+    out = run_once(v, current, overrides, reject, plan.get("first"))
+    current = out.get("current_before", current)
     defaults = default_names(v)
     injected = schema_defaults(v)
     ver = f"v{v}"
@@ -164,7 +176,7 @@ def check(plan) -> Result:
                 r.bad("C16:buffer-count-not-last", f"{ver}: written after it: {after}; plan {plan}")
     # a rejection does not stop the rest: same sequence of IDs as the all-accept twin
     if reject:
-        twin = run_once(v, current, overrides, {})
+        twin = run_once(v, plan["current"], overrides, {}, plan.get("first"))
         if twin["exc"] is None and [n for _, n, _ in twin["sets"]] != names:
             r.bad("C16:rejection-changes-what-is-written", f"{ver}: with rejects {names}, without {[n for _, n, _ in twin['sets']]}; plan {plan}")
         r.cls("rejection")
@@ -180,6 +192,8 @@ def check(plan) -> Result:
         r.cls("current-above-default")
     if any(c is None for c in current.values()):
         r.cls("unreadable")
+    if plan.get("first") is not None:
+        r.cls("earlier-write-on-same-object")
     r.cls(ver)
     return r
 
@@ -244,7 +258,15 @@ def plans(draw, versions=tuple(range(4, 15))):
             current[c.value_id.name] = draw(st.sampled_from([0, 1, None]))
     rej_names = draw(st.lists(st.sampled_from(sorted(current)), max_size=3, unique=True))
     reject = {n: draw(st.sampled_from([0x35, 0x36, 0x37, 0x38, 0x01, 0xEE])) for n in rej_names}
-    return {"v": v, "current": current, "overrides": overrides, "reject": reject}
+    plan = {"v": v, "current": current, "overrides": overrides, "reject": reject}
+    if draw(st.integers(0, 2)) == 0:
+        first = {}
+        for n in draw(st.lists(st.sampled_from(inside), max_size=3, unique=True)) if inside else []:
+            cands = [c for c in keys[n] if c is not None]
+            if cands:
+                first[n] = max(cands) if draw(st.booleans()) else draw(st.sampled_from(cands))
+        plan["first"] = first
+    return plan
 
 
 def _worker(ctx, n):
